@@ -131,3 +131,33 @@ pub fn run(kind: &str, input: &Value) -> Value {
         _ => json!({"outcome": "unknown-kind", "kind": kind}),
     }
 }
+
+/// Drive the real MultiLineCodec the way FramedRead does: append a chunk, decode until None.
+pub fn run_codec(input: &Value) -> Value {
+    use crate::wire::codec::MultiLineCodec;
+    use tokio_util::codec::Decoder;
+    guarded(|| {
+        let data = bytes_of(&input["stream"]);
+        let mut cuts: Vec<usize> = input["cuts"].as_array().map(|a| a.iter().map(|x| x.as_u64().unwrap() as usize).collect()).unwrap_or_default();
+        cuts.insert(0, 0);
+        cuts.push(data.len());
+        let mut codec = MultiLineCodec::default();
+        let mut buf = bytes::BytesMut::new();
+        let mut frames = vec![];
+        let mut error = false;
+        'outer: for w in cuts.windows(2) {
+            buf.extend_from_slice(&data[w[0]..w[1]]);
+            loop {
+                match codec.decode(&mut buf) {
+                    Ok(Some(s)) => frames.push(hex::encode(s.as_bytes())),
+                    Ok(None) => break,
+                    Err(_) => {
+                        error = true;
+                        break 'outer;
+                    }
+                }
+            }
+        }
+        json!({"outcome": "ok", "frames": frames, "left": hex::encode(&buf[..]), "error": error})
+    })
+}
